@@ -55,11 +55,12 @@ theorem runFrom_append {a b : List Sax} {st st' : HSt} (h : runFrom st a = .ok s
 structure WFEntry (e : Entry) : Prop where
   name : ':' ∉ e.name
   pfx : ∀ p, e.pfx = some p → ':' ∉ p
-  notInst : e.pfx = none → e.name ≠ sInstanceID
+  notInst : e.name ≠ sInstanceID
 
 structure WF (d : LcDoc) : Prop where
   root : get? d.rootAttrs sVal = none
   entries : ∀ i ∈ d.insts, ∀ e ∈ i.entries, WFEntry e
+  ipfx : ∀ i ∈ d.insts, ∀ p, i.ipfx = some p → ':' ∉ p
   looseWF : ∀ e ∈ d.loose, WFEntry e
 
 /-- `if current_instance not in self.changes: self.changes[current_instance] = {}` -/
@@ -91,14 +92,19 @@ theorem stripPrefix_qname (e : Entry) (hw : WFEntry e) : stripPrefix (qname e) =
     simp only [h1, if_true, dropWhile_colon p e.name (hw.pfx p hp)]
     rfl
 
-theorem qname_ne_instanceID (e : Entry) (hw : WFEntry e) : qname e ≠ sInstanceID := by
-  unfold qname
-  cases hp : e.pfx with
-  | none => exact hw.notInst hp
+theorem qname_ne_instanceID (e : Entry) (hw : WFEntry e) : stripPrefix (qname e) ≠ sInstanceID := by
+  rw [stripPrefix_qname e hw]; exact hw.notInst
+
+theorem stripPrefix_iname (i : Inst) (hp : ∀ p, i.ipfx = some p → ':' ∉ p) :
+    stripPrefix (iname i) = sInstanceID := by
+  unfold iname
+  cases h : i.ipfx with
+  | none => decide
   | some p =>
-    intro h
-    have : ':' ∈ sInstanceID := by rw [← h]; simp
-    exact absurd this (by decide)
+    unfold stripPrefix
+    have h1 : (p ++ ':' :: sInstanceID).contains ':' = true := by simp
+    simp only [h1, if_true, dropWhile_colon p sInstanceID (hp p h)]
+    rfl
 
 theorem orZero_some (id : S) : orZero (some id) = id := rfl
 
@@ -130,7 +136,7 @@ theorem step_entry_start_gen (st : HSt) (e : Entry) (cur : Option S) (id : S) (h
     · simp only [hc]
       exact ⟨[], get?_set_self _ _ _⟩
   obtain ⟨inner, hi⟩ := hsome
-  simp only [step, get?_entryAttrs_val, qname_ne_instanceID e hw, if_false, hcur, hid,
+  simp only [step, get?_entryAttrs_val, stripPrefix_qname e hw, hw.notInst, if_false, hcur, hid,
     get?_entryAttrs_channel, stripPrefix_qname e hw]
   unfold applyEntry isMaster
   unfold ensure at hi ⊢
@@ -153,7 +159,7 @@ theorem step_entry_start (st : HSt) (e : Entry) (id : S) (hcur : st.current = so
   step_entry_start_gen st e (some id) id rfl hcur hw
 
 theorem step_entry_stop (st : HSt) (e : Entry) (hw : WFEntry e) : step st (.stop (qname e)) = .ok st := by
-  simp only [step, qname_ne_instanceID e hw, if_false]
+  simp only [step, stripPrefix_qname e hw, hw.notInst, if_false]
 
 
 theorem run_entries (id : S) (rest : List Sax) (es : List Entry)
@@ -185,27 +191,30 @@ theorem run_loose (rest : List Sax) (es : List Entry) (hw : ∀ e ∈ es, WFEntr
 def applyInst (ch : PyDict S (PyDict S S)) (i : Inst) : PyDict S (PyDict S S) :=
   i.entries.foldl (applyEntry i.id) ch
 
-theorem run_inst (i : Inst) (hw : ∀ e ∈ i.entries, WFEntry e) (rest : List Sax)
+theorem run_inst (i : Inst) (hw : ∀ e ∈ i.entries, WFEntry e)
+    (hp : ∀ p, i.ipfx = some p → ':' ∉ p) (rest : List Sax)
     (ch : PyDict S (PyDict S S)) :
     runFrom ⟨ch, none⟩ (instEvents i ++ rest) = runFrom ⟨applyInst ch i, none⟩ rest := by
-  have h1 : step ⟨ch, none⟩ (.start sInstanceID [(sVal, i.id)]) = .ok ⟨ch, some i.id⟩ := by
-    simp [step, get?]
-  have h2 : ∀ c, step ⟨c, some i.id⟩ (.stop sInstanceID) = .ok ⟨c, none⟩ := by
-    intro c; simp [step]
+  have hn := stripPrefix_iname i hp
+  have h1 : step ⟨ch, none⟩ (.start (iname i) [(sVal, i.id)]) = .ok ⟨ch, some i.id⟩ := by
+    simp [step, get?, hn]
+  have h2 : ∀ c, step ⟨c, some i.id⟩ (.stop (iname i)) = .ok ⟨c, none⟩ := by
+    intro c; simp [step, hn]
   simp only [instEvents, List.cons_append, List.append_assoc, runFrom, h1]
   rw [run_entries i.id _ i.entries hw ch]
   simp only [List.cons_append, List.nil_append, runFrom, h2, applyInst]
 
 theorem run_insts (rest : List Sax) (insts : List Inst)
-    (hw : ∀ i ∈ insts, ∀ e ∈ i.entries, WFEntry e) : ∀ ch,
+    (hw : ∀ i ∈ insts, ∀ e ∈ i.entries, WFEntry e)
+    (hp : ∀ i ∈ insts, ∀ p, i.ipfx = some p → ':' ∉ p) : ∀ ch,
     runFrom ⟨ch, none⟩ (insts.flatMap instEvents ++ rest) = runFrom ⟨insts.foldl applyInst ch, none⟩ rest := by
   induction insts with
   | nil => intro ch; rfl
   | cons i r ih =>
     intro ch
     simp only [List.flatMap_cons, List.append_assoc, List.foldl_cons]
-    rw [run_inst i (hw i List.mem_cons_self)]
-    exact ih (fun x hx => hw x (List.mem_cons_of_mem _ hx)) _
+    rw [run_inst i (hw i List.mem_cons_self) (hp i List.mem_cons_self)]
+    exact ih (fun x hx => hw x (List.mem_cons_of_mem _ hx)) (fun x hx => hp x (List.mem_cons_of_mem _ hx)) _
 
 /-- the handler on a rendered document: the mapping is the fold of the entries' effects -/
 theorem run_events (d : LcDoc) (hw : WF d) :
@@ -213,10 +222,10 @@ theorem run_events (d : LcDoc) (hw : WF d) :
   have h1 : step {} (.start sEvent d.rootAttrs) = .ok {} := by simp [step, hw.root]
   have h2 : ∀ st : HSt, step st (.stop sEvent) = .ok st := by
     intro st
-    have : sEvent ≠ sInstanceID := by decide
+    have : stripPrefix sEvent ≠ sInstanceID := by decide
     simp [step, this]
   simp only [run, events, runFrom, h1]
-  rw [run_loose _ d.loose hw.looseWF, run_insts _ d.insts hw.entries]
+  rw [run_loose _ d.loose hw.looseWF, run_insts _ d.insts hw.entries hw.ipfx]
   simp only [runFrom, h2]
 
 
@@ -315,19 +324,22 @@ theorem WF_of_wfB (d : LcDoc) (h : wfB d = true) : WF d := by
   have hentry : ∀ e, wfEntryB e = true → WFEntry e := by
     intro e this
     simp only [wfEntryB, Bool.and_eq_true] at this
-    obtain ⟨h1, h2⟩ := this
-    refine ⟨by simpa using h1, ?_, ?_⟩
-    · intro p hp
-      simp only [hp] at h2
-      simpa using h2
-    · intro hp
-      simp only [hp] at h2
-      simpa using h2
-  refine ⟨?_, fun i hm e he => hentry e (hi i hm e he), fun e he => hentry e (hl e he)⟩
+    obtain ⟨⟨h1, h2⟩, h3⟩ := this
+    refine ⟨by simpa using h1, ?_, by simpa using h2⟩
+    intro p hp
+    simp only [hp] at h3
+    simpa using h3
+  refine ⟨?_, fun i hm e he => hentry e ((hi i hm).1 e he), ?_, fun e he => hentry e (hl e he)⟩
   · cases hg : get? d.rootAttrs sVal with
     | none => rfl
     | some x => simp [hg] at hr
+  · intro i hm p hp
+    have := (hi i hm).2
+    simp only [hp] at this
+    simpa using this
 
+theorem sameNames_self (l : List S) : sameNames l l = true := by
+  simp [sameNames]
 
 /-! ### notify_changed_state_variables -/
 
